@@ -3,7 +3,8 @@ WORKER = "w_c04"
 HEADER = "From Coq Require Import List ZArith QArith Qcanon.\nFrom Dimod Require Import Base.Util Model.Poly Model.View Model.Hist Model.ChkC04.\nImport ListNotations."
 CHECK_FN = "check"
 N_QUICK = 1600
-N_THOROUGH = 30000
+N_THOROUGH = 8000
+TIMEOUT = 5400
 SHARD = 60
 SHRINK_KEYS = ["steps"]
 RULE = ("random edit histories (1-25 calls quick, 1-60 thorough; 2-7 labels mixing ints, strings and tuples, in a quarter of the histories some int labels passed as numpy integers (those histories have no tuple labels, open finding d8); dyadic biases) of a BQM "
